@@ -280,3 +280,7 @@ def run(repo: Repo, rep: Report, tier: str) -> None:
     # ---------------- R12 --------------------------------------------------------------
     _borrow3b(repo, rep, "C15", "C15-R3", "C03-R12", "a cell declared in a function or loop body is one cell per expansion: a re-declaration gets a fresh id, which needs the builder's index "
               "to contain the earlier declaration", select=lambda o: "indexes every node" in o.construct or "memory id" in o.construct, floor=2)
+
+    # ---------------- R13 --------------------------------------------------------------
+    _borrow3b(repo, rep, "C15", "C15-R9", "C03-R13", "a write after a call goes to the caller's cell: the lowerer's memory maps are put back from a snapshot after a function body that "
+              "declares a memory of the same name", select=lambda o: "memory_refs" in o.construct or "memory_types" in o.construct, floor=2)
